@@ -51,7 +51,12 @@ func cabiStart() (*cabiProc, error) {
 	return &cabiProc{cmd, in, bufio.NewReaderSize(out, 1<<20)}, nil
 }
 
-func execCABI(body string) string {
+func execCABI(body string) (res string) {
+	defer func() {
+		if r := recover(); r != nil {
+			res = "panic crash" // e.g. InitialiseStates panics in the calling goroutine: a C caller would die as well
+		}
+	}()
 	if cabi == nil {
 		p, err := cabiStart()
 		must(err)
